@@ -79,6 +79,9 @@ def run(ctx, clauses=CLAUSES, prop_note=None):
             for u, s_ in zip(leaves, combo):
                 syn[u - 1] = s_
             sweep.append(sc.sinput(ot, st, lm, sc.SUPER_COSTS[0], syn, (1, 2, 3, 4)))
+        # a third of the 50 625 tuples per run (the seed picks which): each costs about 0.3 CPU-seconds
+        # of trace validation, the full sweep alone would take a quarter of an hour
+        sweep = sweep[ctx.seed % 3::3]
         cases += [(FAM, inp, (("ext", "ALL"),)) for inp in sweep]
         ctx.extra["caterpillar_sweep"] = len(sweep)
     results = sc.run_all(cases)
